@@ -63,6 +63,8 @@ def rule_buffers(fx, rep):
     # wnaf_form: the scalar is updated only through full-width repr operations
     b = fx.body(W.get('form'))
     if b is not None:
+        # normal form: private helpers the recoding was factored into are inlined (with reference parameters forwarded)
+        b = INL.inlined(fx, W.get('form'), lambda q: INL.is_private_helper(fx, q)) or b
         r = Resolver(b)
         bad = []
         allowed = {'sub_noborrow', 'add_nocarry', 'div2', 'shr', 'mul2', 'shl'}
